@@ -55,6 +55,12 @@ CHECKS = {
         text='Every (curve, scale, s) of the grid is inverted by the real ilength under a budget of 400 length evaluations (a bisection on doubles needs < 70; the unfixed code needed 10000 and then raised); results must be in [0,1], invert length to max(s_tol, 4096 ulp(L)) (5e-3 L across a speed zero, the accuracy C06 grants length there), be monotone along the sorted alphabet, hit 0 and 1 exactly at 0 and L, and raise ValueError outside [0,L].',
         note='Trusted: length() (C06). Budget is a step count, not wall time. scipy configuration only.',
         design='4/C07'),
+    'C08': dict(
+        level='exploration',
+        technique='bounded-exhaustive enumeration of Bezier shapes x rotations x scales, all degree-elevated quadratics on a 0.1 grid, an arc grid over rotation x radii x start angle x span, and paths, against exact extrema from rational root isolation (Sturm) and analytic arc critical angles',
+        text='Every segment of the stated grids has its bbox() compared side by side with the exact extrema of its coordinate polynomials (Sturm root isolation over Q on the float control values), resp. the analytic extrema of the stored ellipse arc; tightness 1e-9*size implies containment, which is also checked on a 129-point grid of the real point().',
+        note='Trusted: mc/exact.py root isolation. Exhaustive over the grids only.',
+        design='4/C08'),
 }
 
 NOT_YET = {}
